@@ -141,7 +141,7 @@ static void loop_end(void) {
     fi_api = "teardown";
     uv_walk(&L, walk_close, NULL);
     /* everything user-visible is closing now; completion must not need more than this */
-    uv_timer_start(&wd, wd_cb, 1200, 0);
+    uv_timer_start(&wd, wd_cb, 1000, 0);
     wd_fired = 0;
     for (i = 0; i < 5000 && uv_loop_alive(&L) && !wd_fired; i++) {
       fi_api = "run";
